@@ -39,11 +39,23 @@ impl Default for PerClientStats {
 }
 
 impl PerClientStats {
+    #[cfg(not(roughenough_verif))]
     pub fn new() -> Self {
         PerClientStats {
             clients: AHashMap::with_capacity(MAX_CLIENTS),
             num_overflows: 0,
             max_clients: MAX_CLIENTS,
+        }
+    }
+
+    /// Simulation builds only: the limit comes from a per-run knob (default `MAX_CLIENTS`)
+    #[cfg(roughenough_verif)]
+    pub fn new() -> Self {
+        let limit = verif_std::knobs::max_clients(MAX_CLIENTS);
+        PerClientStats {
+            clients: AHashMap::with_capacity(limit),
+            num_overflows: 0,
+            max_clients: limit,
         }
     }
 
